@@ -59,7 +59,8 @@ def _minmax(is_min):
             if isinstance(acc, SV) or isinstance(b, SV):
                 ea, eb = to_z3(acc), to_z3(b)
                 # Python: min(a, b) returns a unless b < a ; max(a, b) returns a unless b > a
-                acc = SV(z3.If(eb < ea, eb, ea) if is_min else z3.If(eb > ea, eb, ea))
+                cls = type(acc) if isinstance(acc, SV) and type(acc) is not SV else (type(b) if isinstance(b, SV) else SV)
+                acc = cls(z3.If(eb < ea, eb, ea) if is_min else z3.If(eb > ea, eb, ea))
             elif is_num(acc) and is_num(b):
                 acc = (b if b < acc else acc) if is_min else (b if b > acc else acc)
             else:
@@ -321,6 +322,20 @@ def _log10(engine, cx, lineno, x):
     raise Unsupported('log10 of a symbolic value')
 
 
+def _isclose(engine, cx, lineno, a, b, rel_tol=Fraction(1, 10 ** 9), abs_tol=Fraction(0)):
+    """math.isclose: abs(a-b) <= max(rel_tol * max(abs(a), abs(b)), abs_tol)"""
+    if hasattr(a, 'item') and not isinstance(a, (SV, Fraction, int)):
+        a = a.item()
+    if hasattr(b, 'item') and not isinstance(b, (SV, Fraction, int)):
+        b = b.item()
+    if is_num(a) and is_num(b) and is_num(rel_tol) and is_num(abs_tol):
+        return abs(a - b) <= max(rel_tol * max(abs(a), abs(b)), abs_tol)
+    ea, eb, er, et = to_z3(a), to_z3(b), to_z3(rel_tol), to_z3(abs_tol)
+    ab = lambda x: z3.If(x >= 0, x, -x)
+    mx = lambda x, y: z3.If(x >= y, x, y)
+    return SB(ab(ea - eb) <= mx(er * mx(ab(ea), ab(eb)), et))
+
+
 def install(engine):
     E = I.ExternFunc
     b = {}
@@ -352,6 +367,7 @@ def install(engine):
     engine.externs['math'] = I.ExternModule('math', {
         'sqrt': E('math.sqrt', sym_sqrt, needs_cx=True),
         'log10': E('math.log10', _log10, needs_cx=True),
+        'isclose': E('math.isclose', _isclose, needs_cx=True),
         'pi': Fraction(math.pi),
     })
     engine.externs['warnings'] = I.ExternModule('warnings', {'warn': E('warnings.warn', _warn, needs_cx=True)})
